@@ -77,9 +77,11 @@ where
         // Register the waker before looking at the error: an error stored (and signalled) by a
         // stream task between the check and a later registration would otherwise never wake
         // this task.
+        #[cfg(hyperium_h3_verif)]
+        crate::verif_hooks::preempt("driver:poll_connection_error:0");
         self.waker().register(cx.waker());
         #[cfg(hyperium_h3_verif)]
-        crate::verif_hooks::preempt("driver:between_waker_registration_and_error_check");
+        crate::verif_hooks::preempt("driver:poll_connection_error:1");
 
         // Check if the connection is in error state
         if let Some(err) = self.get_conn_error() {
@@ -87,6 +89,8 @@ where
             // err might be a different error so match again
             return Poll::Ready(Err(self.convert_to_connection_error(err)));
         }
+        #[cfg(hyperium_h3_verif)]
+        crate::verif_hooks::preempt("driver:poll_connection_error:2");
         Poll::Pending
     }
 
